@@ -360,7 +360,8 @@ def main():
             pid, len(r['obligations']), len(r['discharged']), len(r['failed']), len(r['undecided']), r['wall_s']))
         vres.append(r)
     kcfgs = P.get('kani', [])
-    ocfgs = P.get('oracles', [])
+    bncfgs = P.get('bounded_native', [])
+    ocfgs = P.get('oracles', []) + bncfgs
     wr = None
     kres = None
     if kcfgs:
@@ -370,6 +371,20 @@ def main():
         log('[%s]   %d obligations, %d discharged, %d failed, %d undecided, %.1fs' % (
             pid, len(kres['obligations']) + len(kres['bounded']), len(kres['discharged']) + len(kres['bounded_discharged']),
             len(kres['failed']), len(kres['undecided']), kres['wall_s']))
+
+    # bounded native stand-ins (exhaustive up to a stated bound; never counted as proved)
+    bnres = []
+    for bn in bncfgs:
+        if wr is None:
+            wr = prepare_workrepo(work, kcfgs, ocfgs, P.get('side'))
+        log('[%s] bounded native stand-in %s (%s) ...' % (pid, bn['unit'], bn['bound']))
+        env_extra = dict(bn.get('env_thorough', {})) if tier == 'thorough' else dict(bn.get('env', {}))
+        os.environ.update(env_extra)
+        orc = run_oracle(bn, wr, seed, [], 0)
+        bnres.append({'unit': bn['unit'], 'bound': bn['bound'] if tier == 'quick' else bn.get('bound_thorough', bn['bound']),
+                      'cases': orc['cases'], 'ran': orc['ran'], 'fails': orc['fails'], 'wall_s': round(orc['wall_s'], 1), 'cmd': orc['cmd'],
+                      'tail': orc['tail'][-600:]})
+        log('[%s]   %d cases, %d failing obligations, %.1fs' % (pid, orc['cases'], len(orc['fails']), orc['wall_s']))
 
     # thorough: proof stability under other SMT seeds / halved rlimit
     stability = []
@@ -397,6 +412,20 @@ def main():
         bounded_ok += kres['bounded_discharged']
         failed.update(kres['failed'])
         undecided += ['kani: %s' % u for u in kres['undecided']]
+    bn_inputs = {}
+    for b in bnres:
+        cfg = next(c for c in bncfgs if c['unit'] == b['unit'])
+        if not b['ran']:
+            undecided.append('bounded native stand-in %s did not run: %s' % (b['unit'], b['tail'][-300:]))
+            continue
+        bad = {f['obligation']: f['input'] for f in b['fails']}
+        for n in cfg['obligations']:
+            bounded.append(n)
+            if n in bad:
+                failed.setdefault(n, []).append('bounded native check: ' + bad[n][:400])
+                bn_inputs[n] = bad[n]
+            else:
+                bounded_ok.append(n)
     for s in stability:
         if s['failed'] or s['undecided']:
             undecided.append('unstable proof: unit %s seed %d rlimit %d -> failed %s undecided %s' % (
@@ -446,8 +475,11 @@ def main():
                'verifier_output': {}, 'counterexamples': [], 'oracle': None,
                'side_violations': (side_res or {}).get('violations', [])}
         found_input = bool(rep['side_violations'])
+        rep['bounded_native_inputs'] = {n: bn_inputs[n] for n in refuted if n in bn_inputs}
+        if rep['bounded_native_inputs']:
+            found_input = True
         kfailed = [n for n in refuted if kres and n in kres['failed']]
-        vfailed = [n for n in refuted if n not in kfailed]
+        vfailed = [n for n in refuted if n not in kfailed and n not in bn_inputs]
         if kfailed:
             ces = kani_counterexamples(kres, wr, work, kcfgs, kfailed)
             rep['counterexamples'] = ces
@@ -515,7 +547,7 @@ def main():
 
     wall = time.time() - t0
     write_evidence(pid, P, tier, seed, wall, vres, kres, obligations, discharged, bounded, bounded_ok, assumed, failed,
-                   undecided, violations, known_hits, stability, side_res, sweep, baseline)
+                   undecided, violations, known_hits, stability, side_res, sweep, baseline, bnres)
 
     for n, what in known_hits:
         log('KNOWN-FINDING: property=%s %s (%s)' % (pid, n, what))
@@ -539,7 +571,7 @@ def main():
 
 
 def write_evidence(pid, P, tier, seed, wall, vres, kres, obligations, discharged, bounded, bounded_ok, assumed, failed,
-                   undecided, violations, known_hits, stability, side_res, sweep, baseline):
+                   undecided, violations, known_hits, stability, side_res, sweep, baseline, bnres=None):
     samples = []
     for r in vres:
         for n in r['discharged'][:400]:
@@ -593,6 +625,7 @@ def write_evidence(pid, P, tier, seed, wall, vres, kres, obligations, discharged
                           'unreachable_checks': kres['unreachable'], 'covers': kres['covers'], 'solver_s': round(kres['solver_s'], 2),
                           'wall_s': round(kres['wall_s'], 2)} if kres else None),
             },
+            'bounded_native': bnres or [],
             'bounded': {'obligations': len(bounded), 'discharged': len(bounded_ok), 'names': bounded,
                         'note': 'bounded stand-ins: never counted in obligations/discharged above'},
             'assumed_clauses': assumed,
@@ -621,7 +654,7 @@ def replay_file(pid, P, path, work):
         return 2
     log('[%s] replay of %s' % (pid, path))
     log(json.dumps({k: rep[k] for k in ('failed_obligations',) if k in rep}, indent=1)[:3000])
-    wr = prepare_workrepo(work, P.get('kani', []), P.get('oracles', []), P.get('side'))
+    wr = prepare_workrepo(work, P.get('kani', []), P.get('oracles', []) + P.get('bounded_native', []), P.get('side'))
     rc = 0
     for ce in rep.get('counterexamples', []):
         nr = ce.get('native_replay')
@@ -646,6 +679,13 @@ def replay_file(pid, P, path, work):
             r = run_oracle(o, wr, rep.get('seed', 0), list(rep.get('failed_obligations', {})), 20000)
             for f in r['fails'][:5]:
                 log('[%s] oracle: %s %s' % (pid, f['obligation'], f['input'][:300]))
+            if r['fails']:
+                rc = 1
+    if rep.get('bounded_native_inputs'):
+        for bn in P.get('bounded_native', []):
+            r = run_oracle(bn, wr, 0, [], 0)
+            for f in r['fails'][:5]:
+                log('[%s] bounded native: %s %s' % (pid, f['obligation'], f['input'][:300]))
             if r['fails']:
                 rc = 1
     if rep.get('side_violations'):
